@@ -21,8 +21,28 @@ type AztecCase struct {
 }
 
 func aztecEncode(c AztecCase) (bc barcode.Barcode, err error, pv any) {
-	data := append([]byte(nil), c.Payload...)
+	// the payload is handed over as a window into a larger buffer of the caller's (as a record of a file would be):
+	// neither the window nor what lies behind it may be written to
+	const guard = 16
+	whole := make([]byte, len(c.Payload)+guard)
+	copy(whole, c.Payload)
+	for i := len(c.Payload); i < len(whole); i++ {
+		whole[i] = 0xA5
+	}
+	data := whole[:len(c.Payload)]
 	pv = try(func() { bc, err = aztec.Encode(data, c.ECC, c.Layers) })
+	if pv == nil {
+		for i := range whole {
+			want := byte(0xA5)
+			if i < len(c.Payload) {
+				want = c.Payload[i]
+			}
+			if whole[i] != want {
+				pv = fmt.Sprintf("aztec.Encode wrote into the caller's buffer: offset %d (payload length %d) became %#02x", i, len(c.Payload), whole[i])
+				break
+			}
+		}
+	}
 	return
 }
 
